@@ -79,21 +79,29 @@ structure State (α : Type) where
 
 variable {α : Type}
 
-/-- `readRequest` returned `ok = false`: `time.After(rescan)` is evaluated and the `select` polled -/
-def arm (rescan : Nat) (s : State α) : State α :=
-  let log := match s.cur with
-    | some _ => s.log ++ [.ended (s.next - 1) s.clock]
-    | none => s.log
-  if s.cancelled then
-    { s with log := log, pc := if rescan = 0 then .both else .wokenCtx }
-  else
-    { s with log := log, pc := if rescan = 0 then .wokenTimer else .wait (s.clock + rescan) }
+/-- `readRequest` returned `ok = false` on a non-nil channel: the generator has stopped reading pass `next - 1` -/
+def armLog (s : State α) : List Mark :=
+  match s.cur with
+  | some _ => s.log ++ [.ended (s.next - 1) s.clock]
+  | none => s.log
 
-/-- `requests, _ = rg.delegate.GenerateRequests(ctx, r)` -/
+/-- `time.After(rescan)` is evaluated and the `select` polled -/
+def armPc (rescan : Nat) (s : State α) : Pc α :=
+  if s.cancelled then (if rescan = 0 then .both else .wokenCtx)
+  else (if rescan = 0 then .wokenTimer else .wait (s.clock + rescan))
+
+/-- `readRequest` returned `ok = false`: fall through to the rescan `select` -/
+def arm (rescan : Nat) (s : State α) : State α :=
+  { s with log := armLog s, pc := armPc rescan s }
+
+/-- `requests, _ = rg.delegate.GenerateRequests(ctx, r)`: the variable is re-bound to whatever the
+    call returns — the nil channel when it fails, the error being discarded -/
 def regen (passes : Nat → Option (List α)) (s : State α) : State α :=
-  match passes s.next with
-  | some l => { s with pc := .read, cur := some l, next := s.next + 1, log := s.log ++ [.started s.next s.clock] }
-  | none => { s with pc := .read, cur := none, next := s.next + 1, log := s.log ++ [.failed s.next s.clock] }
+  { s with
+    pc := .read, cur := passes s.next, next := s.next + 1,
+    log := s.log ++ [match passes s.next with
+      | some _ => .started s.next s.clock
+      | none => .failed s.next s.clock] }
 
 /-- one event.  Events that are not enabled in a state leave it unchanged. -/
 def step (rescan : Nat) (passes : Nat → Option (List α)) (e : Ev) (s : State α) : State α :=
